@@ -1238,8 +1238,7 @@ impl TieredEngine {
 
         // Step 1: Search Layer 2 (Hot Tier) - recent writes
         // Over-fetch by 2× to ensure good candidates after merging
-        let hot_results =
-            self.filter_hot_knn_results_to_canonical(self.hot_tier.knn_search(query, k * 2));
+        let hot_results = self.hot_tier_canonical_knn(query, k * 2);
 
         debug!(
             "Hot tier search returned {} results (requested {})",
@@ -1455,9 +1454,7 @@ impl TieredEngine {
 
         let hot_results: Vec<Vec<(u64, f32)>> = miss_queries
             .iter()
-            .map(|query| {
-                self.filter_hot_knn_results_to_canonical(self.hot_tier.knn_search(query, k * 2))
-            })
+            .map(|query| self.hot_tier_canonical_knn(query, k * 2))
             .collect();
 
         {
@@ -1587,6 +1584,29 @@ impl TieredEngine {
         final_results.truncate(k);
 
         final_results
+    }
+
+    /// Hot-tier k-NN candidates that are still canonical, topped up after filtering.
+    ///
+    /// Stale mirror entries (for example the mirror of a document whose canonical record
+    /// was overwritten by a bulk load) are dropped by the coherence filter. Taking a fixed
+    /// prefix of the scan BEFORE filtering lets such entries crowd out valid recent writes:
+    /// with `candidates` stale entries closest to the query the filtered list is empty and
+    /// an acknowledged document in this tier is missing from the answer. Widen the scan by
+    /// the number dropped until nothing more is dropped or the whole tier has been scanned.
+    fn hot_tier_canonical_knn(&self, query: &[f32], candidates: usize) -> Vec<(u64, f32)> {
+        let mut limit = candidates;
+        loop {
+            let raw = self.hot_tier.knn_search(query, limit);
+            let scanned = raw.len();
+            let mut canonical = self.filter_hot_knn_results_to_canonical(raw);
+            let dropped = scanned - canonical.len();
+            if dropped == 0 || scanned < limit {
+                canonical.truncate(candidates);
+                return canonical;
+            }
+            limit = limit.saturating_add(dropped);
+        }
     }
 
     fn filter_hot_knn_results_to_canonical(&self, hot_results: Vec<(u64, f32)>) -> Vec<(u64, f32)> {
@@ -1926,7 +1946,13 @@ impl TieredEngine {
                     .await
                     {
                         Ok(Ok(hot)) => {
+                            let scanned = hot.len();
                             hot_results = self.filter_hot_knn_results_to_canonical(hot);
+                            if hot_results.len() < scanned {
+                                // stale mirror entries were dropped: top the candidates up
+                                hot_results =
+                                    self.hot_tier_canonical_knn(normalized_query.as_ref(), k * 2);
+                            }
                             self.hot_tier_circuit_breaker.record_success();
                         }
                         Ok(Err(e)) => {
